@@ -2,6 +2,7 @@ package rules
 
 import (
 	"fmt"
+	"go/token"
 	"go/types"
 	"sort"
 
@@ -177,6 +178,215 @@ func runC13(c *Ctx) {
 	})
 
 	c.rule("C13.O3", banRecordedDoc, func() { c.banRecorded() })
+
+	c.rule("C13.T3", "the record key determines the banned network: encodeIPNet writes three parts to its writer, in this order and each only after the previous write succeeded: the family tag, the address bytes of that family (tag ipv4 with To4(), tag ipv6 with To16(), paired on the same branches) and the network mask; it returns nil only after all three (a key without the mask or with a mismatched tag makes distinct networks share a record or one network own two)", func() {
+		fn := c.fn("banman.encodeIPNet")
+		wr := c.method("io", "Writer", "Write")
+		to4 := c.method("net", "IP", "To4")
+		to16 := c.method("net", "IP", "To16")
+		writes := find(fn, func(in ssa.Instruction) bool {
+			cc := ir.CallOf(in)
+			return cc != nil && callTo(wr)(in) && cc.Value == ssa.Value(fn.Params[0])
+		})
+		construct := c.nm(fn) + " | key = tag || address || mask"
+		if len(writes) != 3 {
+			c.fail(construct, c.P.Pos(fn.Pos()), fmt.Sprintf("%d writes to the key buffer, 3 tabled (family tag, address, mask)", len(writes)))
+			return
+		}
+		var bad []string
+		// order by dominance
+		sort.Slice(writes, func(i, j int) bool {
+			return writes[i].Block().Dominates(writes[j].Block()) && writes[i].Block() != writes[j].Block() || (writes[i].Block() == writes[j].Block() && ir.IndexIn(writes[i]) < ir.IndexIn(writes[j]))
+		})
+		arg := func(i int) ssa.Value { return ir.CallOf(writes[i]).Args[0] }
+		// 1: one byte holding the tag phi
+		var tagPhi, ipPhi *ssa.Phi
+		if sl, ok := arg(0).(*ssa.Slice); ok {
+			if al, ok := sl.X.(*ssa.Alloc); ok {
+				ir.Instrs(fn, func(in ssa.Instruction) {
+					st, ok := in.(*ssa.Store)
+					if !ok {
+						return
+					}
+					if ia, ok := st.Addr.(*ssa.IndexAddr); ok && ia.X == ssa.Value(al) {
+						if p, ok := st.Val.(*ssa.Phi); ok {
+							tagPhi = p
+						}
+					}
+				})
+			}
+		}
+		if p, ok := ir.Strip(arg(1)).(*ssa.Phi); ok {
+			ipPhi = p
+		}
+		if tagPhi == nil || ipPhi == nil || tagPhi.Block() != ipPhi.Block() {
+			bad = append(bad, "the first two parts written are not the family tag and the address chosen together by the family switch")
+		} else {
+			v4, v6 := c.importConstIn("banman", "ipv4"), c.importConstIn("banman", "ipv6")
+			for i := range tagPhi.Edges {
+				k, isC := ir.ConstInt(tagPhi.Edges[i])
+				ipv := ir.Strip(ipPhi.Edges[i])
+				if ct, ok := ipv.(*ssa.ChangeType); ok {
+					ipv = ct.X
+				}
+				switch {
+				case isC && k == v4 && valIsCallTo(to4)(ipv):
+				case isC && k == v6 && valIsCallTo(to16)(ipv):
+				default:
+					bad = append(bad, "family tag and address form are not paired (ipv4 with To4(), ipv6 with To16()) on the branch from block "+fmt.Sprint(tagPhi.Block().Preds[i].Index))
+				}
+			}
+		}
+		// 3: the mask of the ipNet parameter
+		if !ir.DerivesFrom(arg(2), func(v ssa.Value) bool {
+			fa, ok := v.(*ssa.FieldAddr)
+			return ok && fa.X == ssa.Value(fn.Params[1]) && ir.FieldOfAddr(fa) == c.field("net", "IPNet", "Mask")
+		}) {
+			bad = append(bad, "the third part written is not ipNet.Mask")
+		}
+		sort.Strings(bad)
+		c.verdict(len(bad) == 0, construct, c.P.Pos(fn.Pos()), "tag byte, To4()/To16() bytes paired with the tag, ipNet.Mask", join(bad), c.ats(writes)...)
+		// each write only after the previous one succeeded; nil only after all
+		c.guarded(fn, errNil("write of the family tag", writes[:1], 1), 1, "write of the address", writes[1:2], 1, gDominate)
+		c.guarded(fn, errNil("write of the address", writes[1:2], 1), 1, "write of the mask", writes[2:], 1, gDominate)
+		c.nilReturnsGuarded(fn, errNil("write of the mask", writes[2:], 1), 1)
+	})
+
+	c.rule("C13.T4", "writer/reader agreement of the ban record: addBannedIPNet stores the expiry as 8 bytes of Unix seconds of time.Now().Add(duration) in the expiry bucket (its first bucket parameter) and the reason as one byte in the reason bucket (second parameter), both under the given key; fetchStatus reads the expiry from its first and the reason from its second bucket parameter under its key, decodes with the same byte order variable into time.Unix(seconds, 0), and reports Banned only when the expiry record exists", func() {
+		wdb := "github.com/btcsuite/btcwallet/walletdb"
+		put := c.method(wdb, "ReadWriteBucket", "Put")
+		get := c.method(wdb, "ReadBucket", "Get")
+		add := c.fn("banman.addBannedIPNet")
+		fs := c.fn("banman.fetchStatus")
+		var bad []string
+		check := func(ok bool, msg string) {
+			if !ok {
+				bad = append(bad, msg)
+			}
+		}
+		recvAndArgs := func(call ssa.Instruction) (ssa.Value, []ssa.Value) {
+			cc := ir.CallOf(call)
+			if cc.IsInvoke() {
+				return cc.Value, cc.Args
+			}
+			return cc.Args[0], cc.Args[1:]
+		}
+		orderOf := func(call ssa.Instruction) *ssa.Global {
+			recv, _ := recvAndArgs(call)
+			if ld, ok := recv.(*ssa.UnOp); ok {
+				if g, ok := ld.X.(*ssa.Global); ok {
+					return g
+				}
+			}
+			return nil
+		}
+		named := func(fn *ssa.Function, name string) []ssa.Instruction {
+			return find(fn, func(in ssa.Instruction) bool {
+				cc := ir.CallOf(in)
+				if cc == nil {
+					return false
+				}
+				cal := ir.Resolve(cc)
+				return cal.Func != nil && cal.Func.Name() == name && cal.Func.Pkg() != nil && cal.Func.Pkg().Path() == "encoding/binary"
+			})
+		}
+		// writer
+		puts := find(add, callTo(put))
+		check(len(puts) == 2, fmt.Sprintf("%d Puts in addBannedIPNet, 2 tabled", len(puts)))
+		pu := named(add, "PutUint64")
+		check(len(pu) == 1, "expiry is not encoded with one PutUint64")
+		var wOrder *ssa.Global
+		if len(puts) == 2 && len(pu) == 1 {
+			wOrder = orderOf(pu[0])
+			unix := c.method("time", "Time", "Unix")
+			addM := c.method("time", "Time", "Add")
+			now := c.funcObj("time", "Now")
+			_, puArgs := recvAndArgs(pu[0])
+			secs := puArgs[1]
+			okSecs := ir.DerivesFrom(secs, func(v ssa.Value) bool {
+				call, ok := v.(*ssa.Call)
+				if !ok || !callTo(unix)(call) {
+					return false
+				}
+				recv := call.Call.Args[0]
+				return ir.InfluencedBy(recv, func(x ssa.Value) bool { return valIsCallTo(addM)(x) }) && ir.InfluencedBy(recv, valIsCallTo(now)) && ir.InfluencedBy(recv, func(x ssa.Value) bool { return x == ssa.Value(add.Params[4]) })
+			})
+			check(okSecs, "the stored expiry is not time.Now().Add(duration).Unix()")
+			for i, x := range puts {
+				cc := ir.CallOf(x)
+				check(cc.Value == ssa.Value(add.Params[i]), fmt.Sprintf("Put #%d of addBannedIPNet does not go to its bucket parameter #%d", i+1, i))
+				check(cc.Args[0] == ssa.Value(add.Params[2]), fmt.Sprintf("Put #%d of addBannedIPNet is not keyed by ipNetKey", i+1))
+			}
+			// value of Put #1: the 8-byte buffer PutUint64 filled
+			buf := puArgs[0]
+			b0, _ := buf.(*ssa.Slice)
+			v0, _ := ir.CallOf(puts[0]).Args[1].(*ssa.Slice)
+			check(b0 != nil && v0 != nil && b0.X == v0.X, "the expiry bucket does not receive the buffer the expiry was encoded into")
+			if b0 != nil {
+				if pt, ok := b0.X.Type().Underlying().(*types.Pointer); ok {
+					arr, isArr := pt.Elem().Underlying().(*types.Array)
+					check(isArr && arr.Len() == 8, "the expiry buffer is not 8 bytes")
+				}
+			}
+			// value of Put #2: one byte = byte(reason)
+			okReason := ir.DerivesFrom(ir.CallOf(puts[1]).Args[1], func(v ssa.Value) bool { return v == ssa.Value(add.Params[3]) })
+			check(okReason, "the reason bucket does not receive byte(reason)")
+		}
+		// reader
+		gets := find(fs, callTo(get))
+		check(len(gets) == 2, fmt.Sprintf("%d Gets in fetchStatus, 2 tabled", len(gets)))
+		ru := named(fs, "Uint64")
+		check(len(ru) == 1, "expiry is not decoded with one Uint64")
+		if len(gets) == 2 && len(ru) == 1 {
+			check(wOrder != nil && orderOf(ru[0]) == wOrder, "writer and reader do not use the same byte order variable")
+			var expGet, reasonGet ssa.Instruction
+			for _, x := range gets {
+				cc := ir.CallOf(x)
+				check(cc.Args[0] == ssa.Value(fs.Params[2]), "a Get of fetchStatus is not keyed by ipNetKey")
+				switch cc.Value {
+				case ssa.Value(fs.Params[0]):
+					expGet = x
+				case ssa.Value(fs.Params[1]):
+					reasonGet = x
+				}
+			}
+			check(expGet != nil && reasonGet != nil, "fetchStatus does not read one record from each bucket parameter")
+			if expGet != nil && reasonGet != nil {
+				_, ruArgs := recvAndArgs(ru[0])
+				check(ruArgs[0] == expGet.(ssa.Value), "the decoded expiry is not the value read from the expiry bucket")
+				tu := c.funcObj("time", "Unix")
+				okUnix := false
+				for _, x := range find(fs, callTo(tu)) {
+					a := ir.CallOf(x).Args
+					k, isC := ir.ConstInt(a[1])
+					okUnix = ir.DerivesFrom(a[0], func(v ssa.Value) bool { return v == ru[0].(ssa.Value) }) && isC && k == 0
+				}
+				check(okUnix, "Expiration is not time.Unix(decoded seconds, 0)")
+				// Reason from reasonGet[0]
+				okR := false
+				for _, st := range find(fs, storeToField(c.field("banman", "Status", "Reason"))) {
+					okR = ir.DerivesFrom(st.(*ssa.Store).Val, func(v ssa.Value) bool { return v == reasonGet.(ssa.Value) })
+				}
+				check(okR, "Status.Reason is not read from the reason bucket")
+				// Banned = true only behind expiry record != nil
+				var trueStores []ssa.Instruction
+				for _, st := range find(fs, storeToField(c.field("banman", "Status", "Banned"))) {
+					if k, isC := ir.ConstBool(st.(*ssa.Store).Val); isC && k {
+						trueStores = append(trueStores, st)
+					}
+				}
+				var nilCmp []ssa.Instruction
+				ir.Instrs(fs, func(in ssa.Instruction) {
+					if b, ok := in.(*ssa.BinOp); ok && (b.Op == token.EQL || b.Op == token.NEQ) && (b.X == expGet.(ssa.Value) || b.Y == expGet.(ssa.Value)) {
+						nilCmp = append(nilCmp, in)
+					}
+				})
+				c.guarded(fs, equalIs("expiry record vs nil", nilCmp, false), 1, "Status.Banned = true", trueStores, 1, gDominate)
+			}
+		}
+		sort.Strings(bad)
+		c.verdict(len(bad) == 0, "banman.addBannedIPNet / banman.fetchStatus | record codec agreement", c.P.Pos(add.Pos()), "8-byte Unix seconds + 1-byte reason, same buckets, same key, same byte order", join(bad))
+	})
 
 	c.rule("C13.T2", "one address, one record: the parser that builds the ban key's IP network and the encoder that serialises it split IPv4 from IPv6 with the same predicates (sibling agreement: an IPv4-mapped IPv6 spelling must be treated as the 4-byte address by both, otherwise mask and address lengths disagree and the spelling gets its own record); the parsed network is ip.Mask(mask) of the default single-address mask", func() {
 		classifiers := func(fn *ssa.Function) []string {
